@@ -788,8 +788,17 @@ func c14Renumber(c *Ctx) {
 		for _, p := range idProblems(second) {
 			c.Violate("attribute database ids: "+p+" (accessory numbered a second time after it grew)", id, in, "unique non-zero ids", accView(a))
 		}
-		// (an object that is numbered a second time continues from its own counter — recorded behaviour, modelled in
-		// Ids.lean: ids are `range' idCount n`; the fresh build `b` must be numbered from 1)
+		// numbering depends on the list of services and characteristics only (F49): the object that was numbered before
+		// has, after it is numbered again, exactly the ids of the fresh build of the same shape
+		if va, vb := accView(a), accView(b); va != vb {
+			c.Violate("instance ids depend on how often the accessory was numbered before, not only on its construction order", id, in, vb+" (the same shape built fresh)", va)
+		}
+		// … and a refused AddAccessory of an accessory that is already in the container leaves its ids alone
+		before := accView(a)
+		second.AddAccessory(a)
+		if after := accView(a); after != before {
+			c.Violate("a refused AddAccessory changes the instance ids of an accessory that is being served", id, in, before, after)
+		}
 		for _, p := range idProblems(ref) {
 			c.Violate("attribute database ids: "+p, id, in, "unique non-zero ids", accView(b))
 		}
